@@ -334,8 +334,19 @@ def gen_ci(rng, tier):
     z = rng.sample(rest, rng.randint(0, len(rest)))
     names = list(rng.choice(NAME_SETS))
     rng.shuffle(names)
+    by_value = rng.random() < .3 and bool(z)
+    zstate = [rng.randrange(card[v]) for v in z]
+    rare = False
+    if by_value and rng.random() < .4:
+        # the context Z = z is a rare event (probability 1e-5 .. 1e-7): the conditional distribution given it is what it was
+        sel = [all(core.unravel(card, idx)[v] == s_ for v, s_ in zip(z, zstate)) for idx in range(len(vals))]
+        tot = sum(Fraction(v) for v, k in zip(vals, sel) if k)
+        if 0 < tot < 1:
+            eps = Fraction(1, rng.choice([10 ** 5, 10 ** 6, 10 ** 7]))
+            vals = [Fraction(v) * (eps / tot) if k else Fraction(v) * ((1 - eps) / (1 - tot)) for v, k in zip(vals, sel)]
+            rare = True
     return {"n": n, "card": card, "vals": [rs(v) for v in vals], "x": x, "y": y, "z": z, "style": style, "names": names[:n],
-            "by_value": rng.random() < .25 and bool(z), "zstate": [rng.randrange(card[v]) for v in z]}
+            "by_value": by_value, "zstate": zstate, "rare": rare}
 
 
 def marg(vals, card, keep):
@@ -354,7 +365,7 @@ def run_ci(case, drv):
     vals = [Fraction(v) for v in case["vals"]]
     x, y, z = case["x"], case["y"], case["z"]
     p = {"scope": list(range(n)), "card": card, "vals": case["vals"]}
-    tags = dict(style=case["style"], nz=len(z), by_value=case["by_value"])
+    tags = dict(style=case["style"], nz=len(z), by_value=case["by_value"], rare_context=bool(case.get("rare")))
     jpd = JPD(names, card, [float(v) for v in vals])
     if case["by_value"]:
         # condition on Z = z (values): independence of x, y in P(. | z)
